@@ -58,6 +58,48 @@ def deltaAddReduce {α : Type} (f : Nat → α) (p : Nat) : α := f p
 /-- Result of `Integrate(Delta(v, p, ld), f, v)` with `w = exp ld`. -/
 def deltaIntegrate (w : Rat) (f : Nat → Rat) (p : Nat) : Rat := w * f p
 
+/-! ### Deltas binding several variables, reduced / integrated over a subset of them -/
+
+/-- Linear-space density of `Delta(((v₁,(p₁,ld₁)), …, (v_k,(p_k,ld_k))))` with `w_j = exp ld_j`. -/
+def deltaProd : List Nat → List Rat → List Nat → Rat
+  | p :: ps, w :: ws, x :: xs => (if x = p then w else 0) * deltaProd ps ws xs
+  | _, _, _ => 1
+
+/-- Σ over the coordinates selected by `mask` (the reduced variables), the others read from `x`. -/
+def sumMask : List Nat → List Bool → (List Nat → Rat) → List Nat → Rat
+  | s :: ss, m :: ms, g, x :: xs =>
+    if m then sumRange s fun i => sumMask ss ms (fun t => g (i :: t)) xs
+    else sumMask ss ms (fun t => g (x :: t)) xs
+  | _, _, g, _ => g []
+
+/-- The point on the reduced coordinates, `x` on the others (what `Subs(integrand, subs)` evaluates). -/
+def mergePt : List Bool → List Nat → List Nat → List Nat
+  | m :: ms, p :: ps, x :: xs => (if m then p else x) :: mergePt ms ps xs
+  | _, _, _ => []
+
+/-- Product of the weights of the reduced variables (`Subs(delta, subs)` turns them into log-densities). -/
+def wMask : List Bool → List Rat → Rat
+  | m :: ms, w :: ws => (if m then w else 1) * wMask ms ws
+  | _, _ => 1
+
+/-- The Delta that remains on the un-reduced variables. -/
+def deltaRest : List Bool → List Nat → List Rat → List Nat → Rat
+  | m :: ms, p :: ps, w :: ws, x :: xs =>
+    (if m then 1 else (if x = p then w else 0)) * deltaRest ms ps ws xs
+  | _, _, _, _ => 1
+
+/-- `Integrate(Delta, f, S)` as `integrate.eager_integrate` computes it: substitute the points of the
+    reduced names into integrand and measure, keep the remaining Delta. -/
+def deltaIntegrateSubset (mask : List Bool) (pt : List Nat) (ws : List Rat) (f : List Nat → Rat)
+    (x : List Nat) : Rat :=
+  wMask mask ws * deltaRest mask pt ws x * f (mergePt mask pt x)
+
+/-- `(Delta + f).reduce(logaddexp, S)`: `Delta.eager_reduce` drops the reduced terms (unit mass:
+    their log-densities do not enter), the remaining Delta keeps its own. -/
+def deltaReduceSubset (mask : List Bool) (pt : List Nat) (ws : List Rat) (f : List Nat → Rat)
+    (x : List Nat) : Rat :=
+  deltaRest mask pt ws x * f (mergePt mask pt x)
+
 /-! ### Mixed radix -/
 
 def prod : List Nat → Nat
